@@ -95,6 +95,12 @@ let () =
                match flt_arg_adapter (fun x -> x) [v; n] with
                | Some [x; y] -> Printf.printf "adbrun %d %d\n" x y
                | _ -> print_string "adnone\n") (pairs rest)
+       | "ads" :: ":" :: rest ->
+           (* two adapted by-value listeners and the caller afterwards: all see the same dispatched value *)
+           List.iter (fun (v, n) ->
+               match flt_arg_adapter (fun x -> x) [v; n] with
+               | Some [x; y] -> Printf.printf "adsrun 1 %d %d\nadsrun 2 %d %d\nadsafter %d\n" x y x y x
+               | _ -> print_string "adnone\n") (pairs rest)
        | ["end"] -> print_string "end\n"
        | _ -> failwith ("bad line: " ^ line)
      done
